@@ -1260,15 +1260,18 @@ class PendingClassDef(_PendingCompoundStmt[ClassDef]):
                 func=Name(id="setattr", ctx=Load()),
                 args=[
                     self.nsp.get_load_name(self.node.name),
-                    Name(id="k", ctx=Load()),
-                    Name(id="v", ctx=Load()),
+                    Name(id=OL_CLASS_MEMBER_NAME, ctx=Load()),
+                    Name(id=OL_CLASS_MEMBER_VALUE, ctx=Load()),
                 ],
                 keywords=[],
             ),
             generators=[
                 comprehension(
                     target=Tuple(
-                        elts=[Name(id="k", ctx=Store()), Name(id="v", ctx=Store())],
+                        elts=[
+                            Name(id=OL_CLASS_MEMBER_NAME, ctx=Store()),
+                            Name(id=OL_CLASS_MEMBER_VALUE, ctx=Store()),
+                        ],
                         ctx=Store(),
                     ),
                     iter=Call(
